@@ -187,6 +187,17 @@ def check(plan, res):
         return v
     out = []
     mem = [e.kv() for e in res.events if e.kind == 'mem']
+    cm = plan.meta.get('cache')
+    if cm:
+        if len(mem) < 2: return out
+        a, b = mem[0], mem[-1]
+        ds, dh = int(b['strs']) - int(a['strs']), int(b['heap']) - int(a['heap'])
+        # one name per slot; a name of the kind used here costs well under 64 bytes with its table entry
+        if ds > cm['slots'] + 64 or dh > cm['slots'] * 64 + 65536:
+            out.append(Violation(PROP, 'leak', 'after %d names called once each in programs that were freed again, %d more strings (%d more heap bytes) are alive than before; the call_other cache has %d slots and holds one name per slot' % (cm['names'], ds, dh, cm['slots']), PROP + '/leak/apply-cache-names'))
+        if any(a.get(k) != b.get(k) for k in ('objs', 'live', 'dlist', 'progs')):
+            out.append(Violation(PROP, 'leak', 'objects or programs are not back at their count: %s' % ', '.join('%s %s -> %s' % (k, a.get(k), b.get(k)) for k in ('objs', 'live', 'dlist', 'progs') if a.get(k) != b.get(k)), PROP + '/leak/objects'))
+        return out
     if len(mem) < ROUNDS: return out          # a round did not complete (the shrinker cut it): nothing to compare
     a, b = mem[ROUNDS - 4], mem[ROUNDS - 1]
     hs = [int(m['heap']) for m in mem[ROUNDS - 4:ROUNDS]]
@@ -204,7 +215,7 @@ def check(plan, res):
         out.append(Violation(PROP, 'leak', 'objects or programs are not back at their count: %s' % ', '.join('%s %d -> %d' % d for d in diff), PROP + '/leak/objects'))
     # read-backs and all other records identical between round 3 and round 7 (object numbers aside)
     cyc = plan.meta.get('round_cycles')
-    if cyc and len(cyc) >= ROUNDS:
+    if cyc and len(cyc) >= ROUNDS and not plan.meta.get('cache'):
         def recs(r):
             lo, hi = cyc[r]
             return [re.sub(r'#\d+', '#N', re.sub(r'(h|t)=\d+', r'\1=N', e.rest)) for e in res.events if e.kind == 'R' and lo < e.cycle <= hi and not e.rest.startswith('MEMSTAT') and not e.rest.startswith('DO ')]
@@ -356,12 +367,59 @@ def gen_efuns(rng, tier, i):
     return p
 
 
+def _cache_slots():
+    try:
+        m = re.search(r'#define\s+APPLY_CACHE_BITS\s+(\d+)', open('/repo/lib/efuns/options.h').read())
+        return 1 << int(m.group(1))
+    except Exception:
+        return 2048
+
+
+def gen_cache(rng, tier, i):
+    """apply-cache accounting.  The call_other cache holds one reference on a function name per slot, so whatever the
+    history, the strings it keeps alive are at most as many as it has slots.  Each pass loads a program whose function names
+    exist nowhere else, calls every one of them by name (one cache entry each) and frees the program again; the passes together
+    insert three to four times as many names as there are slots.  Strings alive at the end minus strings alive before the
+    first pass must stay below the slot count (plus a small allowance for the interpreter's own bounded caches)."""
+    slots = _cache_slots()
+    nf = rng.choice((120, 200, 300))
+    passes = (rng.choice((3, 4)) * slots) // nf + 1
+    def prog(k):
+        return ''.join('int f%03d_%03d() { return %d; }\n' % (k, j, j) for j in range(nf)) + 'void create() { }\n'
+    drv = ('inherit "/script";\nvoid create() { seteuid(getuid()); }\n'
+           'void go(string ks, string ns) {\n  object o; int j, k, n; k = to_int(ks); n = to_int(ns);\n  o = load_object("/c6/r");\n'
+           '  for (j = 0; j < n; j++) call_other(o, sprintf("f%03d_%03d", k, j));\n'
+           '  for (j = 0; j < n; j += 7) call_other(o, sprintf("f%03d_%03d", k, j));\n  destruct(o);\n}\n')
+    p = Plan()
+    p.file('mcfg.h', mcfg({}))
+    p.file('c6/cd.c', drv)
+    p.cfg('Port', '4000:telnet')
+    p.cfg('MaxEvaluationCost', 8000000)
+    p.opt('fault_exempt_master', 1)
+    p.opt('max_instr', 400000000)
+    p.cycle(connect(0, 0))
+    p.cycle(send(0, 'do name u0\r\n'))
+    def one(k):
+        p.cycle('writefile c6/r.c %s' % enc(prog(k)), send(0, 'do call /c6/cd go %d %d\r\n' % (k, nf)))
+        p.idle(1)
+    one(0); one(1)                       # everything that is set up once is set up here
+    p.cycle(send(0, 'do memstat 0\r\n'))
+    for k in range(passes): one(2 + k)
+    p.cycle(send(0, 'do memstat 1\r\n'))
+    p.idle(1)
+    p.meta['kinds'] = ['cache'] * 4; p.meta['shared'] = True; p.meta['many'] = False
+    p.meta['tmpl'] = None; p.meta['cache'] = {'slots': slots, 'names': passes * nf, 'nf': nf}
+    p.meta['keep_cycles'] = len(p.cycles)
+    return p
+
+
 _gen_values = gen
 
 
 def gen(rng, tier, i):
     # one scenario in four sends values through the efun surface instead of the scripted plumbing
     import os
+    if os.environ.get('C06_CACHE_ONLY') or rng.random() < 0.04: return gen_cache(rng, tier, i)
     if rng.random() < (1.0 if os.environ.get('C06_EFUNS_ONLY') else 0.35): return gen_efuns(rng, tier, i)
     return _gen_values(rng, tier, i)
 
@@ -396,5 +454,6 @@ def _shrink_efun_program(plan, fails):
 
 
 def shrink_args(plan, fails):
+    if plan.meta.get('cache'): return plan
     if plan.meta.get('tmpl') is None: return _shrink_efun_program(plan, fails)
     return _shrink_values(plan, fails)
